@@ -8,7 +8,12 @@ import (
 	"strings"
 	"time"
 
+	xxhashv2 "github.com/cespare/xxhash/v2"
+	cryptomb "github.com/envoyproxy/go-control-plane/contrib/envoy/extensions/private_key_providers/cryptomb/v3alpha"
+	qat "github.com/envoyproxy/go-control-plane/contrib/envoy/extensions/private_key_providers/qat/v3alpha"
 	envoytls "github.com/envoyproxy/go-control-plane/envoy/extensions/transport_sockets/tls/v3"
+	"google.golang.org/protobuf/types/known/durationpb"
+	meshconfig "istio.io/api/mesh/v1alpha1"
 	authorizationv1 "k8s.io/api/authorization/v1"
 	corev1 "k8s.io/api/core/v1"
 	metav1 "k8s.io/apimachinery/pkg/apis/meta/v1"
@@ -83,6 +88,15 @@ type sdsSUT struct {
 	cache  model.XdsCache
 	gen    *pxds.SecretGen
 	remote bool
+	now    int                     // clock seconds since `start` (advanced by `tick` and by policy changes)
+	hist   map[string][]policySnap // per cluster: what the authoriser answered from which second on
+}
+
+// policySnap is the authoriser's policy from second t on (for the oracle's bounded-staleness clause).
+type policySnap struct {
+	t     int
+	allow sets.String
+	err   bool
 }
 
 func (s *sdsSUT) close() {
@@ -137,6 +151,62 @@ func (s *sdsSUT) start(cfg string, remoteCreds bool) {
 	}
 	s.cache = model.NewXdsCache()
 	s.gen = pxds.NewSecretGen(s.creds, s.cache, cluster.ID(cfg), nil)
+	s.now, s.hist = 0, map[string][]policySnap{}
+	for _, id := range s.order {
+		s.snapshot(id)
+	}
+}
+
+func (s *sdsSUT) snapshot(id string) {
+	sp := s.specs[id]
+	s.hist[id] = append(s.hist[id], policySnap{t: s.now, allow: sp.allow.Copy(), err: sp.sarErr})
+}
+
+// advance moves the clock of every authorization cache (verif hook: cached verdicts become d seconds older).
+func (s *sdsSUT) advance(sec int) {
+	s.now += sec
+	for _, id := range s.order {
+		kubesecrets.VerifC11AgeAuthorizationCache(s.creds, cluster.ID(id), time.Duration(sec)*time.Second)
+	}
+}
+
+// policyChange applies a change of the fake authoriser. Before `start` it only configures; afterwards 20 clock
+// seconds pass first, then the API server answers according to the new policy.
+func (s *sdsSUT) policyChange(id string, f func(sp *clusterSpec)) {
+	if s.gen != nil && s.specs[id] == nil {
+		return // after `start`: not a configured cluster, nothing happens
+	}
+	sp := s.spec(id)
+	if s.gen == nil {
+		f(sp)
+		return
+	}
+	s.advance(20)
+	f(sp)
+	if sp.policy != nil {
+		sp.policy.apiError = sp.sarErr
+	}
+	if _, known := s.hist[id]; known {
+		s.snapshot(id)
+	}
+}
+
+// allowedWithin: did the authoriser of the cluster truly allow the user at some second in (now-window, now]?
+func (s *sdsSUT) allowedWithin(id, user string, window int) bool {
+	h := s.hist[id]
+	for i, sn := range h {
+		last := s.now // last second at which this snapshot was in force
+		if i+1 < len(h) {
+			last = h[i+1].t - 1
+		}
+		if last < sn.t || last <= s.now-window {
+			continue
+		}
+		if !sn.err && sn.allow.Contains(user) {
+			return true
+		}
+	}
+	return false
 }
 
 var (
@@ -151,6 +221,7 @@ type genReq struct {
 	refs      []string
 	hasRefs   bool
 	ptype     string
+	pkp       string // "", "cryptomb" or "qat": private key provider in the proxy's ProxyConfig metadata
 	claimedNs string
 	names     []string
 	req       *model.PushRequest
@@ -158,6 +229,7 @@ type genReq struct {
 
 func decGen(f []string) genReq {
 	g := genReq{cluster: wire.Dec(f[5]), ptype: wire.Dec(f[7]), claimedNs: wire.Dec(f[8]), names: wire.DecList(f[9])}
+	g.ptype, g.pkp, _ = strings.Cut(g.ptype, "+")
 	if f[1] == "1" {
 		g.vid = &spiffe.Identity{TrustDomain: wire.Dec(f[2]), Namespace: wire.Dec(f[3]), ServiceAccount: wire.Dec(f[4])}
 	}
@@ -194,7 +266,35 @@ func (g genReq) proxy() *model.Proxy {
 	if g.hasRefs {
 		p.MergedGateway = &model.MergedGateway{VerifiedCertificateReferences: sets.New(g.refs...)}
 	}
+	if pc := pkpConfig(g.pkp); pc != nil {
+		p.Metadata.ProxyConfig = &model.NodeMetaProxyConfig{PrivateKeyProvider: pc}
+	}
 	return p
+}
+
+// pkpConfig is the private-key-provider configuration of a proxy variant.
+func pkpConfig(kind string) *meshconfig.PrivateKeyProvider {
+	switch kind {
+	case "cryptomb":
+		return &meshconfig.PrivateKeyProvider{Provider: &meshconfig.PrivateKeyProvider_Cryptomb{
+			Cryptomb: &meshconfig.PrivateKeyProvider_CryptoMb{PollDelay: durationpb.New(10 * time.Microsecond)},
+		}}
+	case "qat":
+		return &meshconfig.PrivateKeyProvider{Provider: &meshconfig.PrivateKeyProvider_Qat{
+			Qat: &meshconfig.PrivateKeyProvider_QAT{PollDelay: durationpb.New(20 * time.Microsecond)},
+		}}
+	}
+	return nil
+}
+
+// pkpLabels maps the cache-key hash of each provider configuration (computed as sds.go does: xxhash of the config's
+// String()) to a stable label, so that cache keys are comparable with the model.
+func pkpLabels() map[string]string {
+	m := map[string]string{}
+	for _, k := range []string{"cryptomb", "qat"} {
+		m[strconv.FormatUint(xxhashv2.Sum64String(pkpConfig(k).String()), 10)] = "H-" + k
+	}
+	return m
 }
 
 // secretView is the canonical view of one returned Envoy secret.
@@ -229,8 +329,15 @@ func views(res model.Resources) []secretView {
 			v.kind = "K"
 			v.cert = string(tc.GetCertificateChain().GetInlineBytes())
 			v.key = string(tc.GetPrivateKey().GetInlineBytes())
-			if tc.GetPrivateKeyProvider() != nil {
-				v.kind = "P"
+			if pkp := tc.GetPrivateKeyProvider(); pkp != nil {
+				// the key travels inside the provider's typed config
+				v.kind = "P:" + pkp.GetProviderName()
+				cm, qc := &cryptomb.CryptoMbPrivateKeyMethodConfig{}, &qat.QatPrivateKeyMethodConfig{}
+				if pkp.GetTypedConfig().UnmarshalTo(cm) == nil {
+					v.key = string(cm.GetPrivateKey().GetInlineBytes())
+				} else if pkp.GetTypedConfig().UnmarshalTo(qc) == nil {
+					v.key = string(qc.GetPrivateKey().GetInlineBytes())
+				}
 			}
 			v.hasKey = true
 		} else {
@@ -265,8 +372,15 @@ func (s *sdsSUT) generate(gen *pxds.SecretGen, g genReq) (model.Resources, strin
 
 func (s *sdsSUT) cacheKeys() string {
 	var keys []string
+	labels := pkpLabels()
 	for _, k := range s.cache.Keys(model.SDSType) {
-		keys = append(keys, k.(string))
+		key := k.(string)
+		if i := strings.LastIndex(key, "/"); i >= 0 {
+			if l, ok := labels[key[i+1:]]; ok {
+				key = key[:i+1] + l
+			}
+		}
+		keys = append(keys, key)
 	}
 	return wire.EncSet(keys)
 }
@@ -305,10 +419,22 @@ func (s *sdsSUT) apply(f []string) string {
 		sp.objs = append(sp.objs, &corev1.ConfigMap{ObjectMeta: metav1.ObjectMeta{Name: wire.Dec(f[3]), Namespace: wire.Dec(f[2])}, Data: d})
 		return "ok"
 	case "allow":
-		s.spec(wire.Dec(f[1])).allow.Insert(sa.MakeUsername(wire.Dec(f[3]), wire.Dec(f[2])))
+		s.policyChange(wire.Dec(f[1]), func(sp *clusterSpec) { sp.allow.Insert(sa.MakeUsername(wire.Dec(f[3]), wire.Dec(f[2]))) })
+		return "ok"
+	case "deny":
+		s.policyChange(wire.Dec(f[1]), func(sp *clusterSpec) { sp.allow.Delete(sa.MakeUsername(wire.Dec(f[3]), wire.Dec(f[2]))) })
 		return "ok"
 	case "sarerr":
-		s.spec(wire.Dec(f[1])).sarErr = true
+		s.policyChange(wire.Dec(f[1]), func(sp *clusterSpec) { sp.sarErr = true })
+		return "ok"
+	case "sarok":
+		s.policyChange(wire.Dec(f[1]), func(sp *clusterSpec) { sp.sarErr = false })
+		return "ok"
+	case "tick":
+		n, _ := strconv.Atoi(f[1])
+		if s.gen != nil {
+			s.advance(n)
+		}
 		return "ok"
 	case "start":
 		s.start(wire.Dec(f[1]), len(f) < 3 || f[2] == "1")
@@ -546,7 +672,7 @@ func genSDS(seed uint64, n int, outp string) {
 		var proxies []genProxy
 		for i, k := 0, 2+r.Intn(3); i < k; i++ {
 			p := genProxy{hasVid: r.Chance(9, 10), td: "cluster.local", ns: wire.Pick(r, storeNs), sa: wire.Pick(r, sdsSAs),
-				cluster: wire.Pick(r, clusters), ptype: wire.Pick(r, []string{"router", "sidecar", "router"})}
+				cluster: wire.Pick(r, clusters), ptype: wire.Pick(r, []string{"router", "sidecar", "router", "router", "router+cryptomb", "router+qat"})}
 			if r.Chance(1, 10) {
 				p.cluster = wire.Pick(r, []string{"c1", "c2", "cX"})
 			}
@@ -581,6 +707,27 @@ func genSDS(seed uint64, n int, outp string) {
 				out.Line("clear")
 				continue
 			}
+			switch r.Intn(16) {
+			case 0:
+				// RBAC changes in the middle of the history: mostly for an identity that is in use
+				q := wire.Pick(r, proxies)
+				cl := q.cluster
+				if r.Chance(1, 6) {
+					cl = wire.Pick(r, []string{"c1", "c2", "cX"})
+				}
+				switch r.Intn(6) {
+				case 0, 1, 2:
+					out.Line("deny", cl, q.sa, wire.Enc(q.ns))
+				case 3, 4:
+					out.Line("allow", cl, q.sa, wire.Enc(q.ns))
+				default:
+					out.Line(wire.Pick(r, []string{"sarerr", "sarok"}), cl)
+				}
+				continue
+			case 1:
+				out.Line("tick", strconv.Itoa(wire.Pick(r, []int{20, 40, 60, 100, 240, 300, 320})))
+				continue
+			}
 			p := wire.Pick(r, proxies)
 			names := wire.Subset(r, working, 1, 3)
 			for j, m := 0, r.Intn(3); j < m; j++ {
@@ -602,10 +749,32 @@ func genSDS(seed uint64, n int, outp string) {
 				req = "0"
 				var ks, ns2, nss []string
 				for j, m := 0, 1+r.Intn(4); j < m; j++ {
-					ks = append(ks, wire.Pick(r, []string{"S", "S", "M", "O"}))
+					k := wire.Pick(r, []string{"S", "S", "S", "M", "O"})
 					nm := wire.Pick(r, append(append([]string{}, storeNames...), "cm", "cm-cacert", "cm2", "b-cacert", "gw-cacert"))
+					un := wire.Pick(r, storeNs)
+					if r.Chance(3, 4) && len(uniq) > 0 {
+						// an update that concerns one of the requested names: the secret / config map it denotes (for this
+						// proxy), sometimes its -cacert sibling
+						_, rest, _ := strings.Cut(wire.Pick(r, uniq), "://")
+						parts := strings.Split(rest, "/")
+						if len(parts) > 1 {
+							un, nm = parts[0], parts[1]
+						} else {
+							un, nm = p.ns, parts[0]
+						}
+						switch r.Intn(6) {
+						case 0:
+							nm += "-cacert"
+						case 1:
+							nm = strings.TrimSuffix(nm, "-cacert")
+						}
+						if strings.HasPrefix(wire.Pick(r, uniq), "configmap://") && r.Chance(1, 2) {
+							k = "M"
+						}
+					}
+					ks = append(ks, k)
 					ns2 = append(ns2, nm)
-					nss = append(nss, wire.Pick(r, storeNs))
+					nss = append(nss, un)
 				}
 				uk, un, uns = wire.EncList(ks), wire.EncList(ns2), wire.EncList(nss)
 			}
@@ -646,13 +815,59 @@ func refDenotes(ref string, o origin, caOK bool) bool {
 	return p[1] == o.name || (caOK && p[1] == o.name+"-cacert")
 }
 
+// oracleStats counts what the explored requests actually exercised (evidence counters; generator regressions show here).
+var oracleStats = map[string]int{}
+
 func (s *sdsSUT) oracleGen(f []string) string {
 	if s.gen == nil {
 		return ""
 	}
 	g := decGen(f)
-	res, _ := s.generate(s.gen, g)
+	res, info := s.generate(s.gen, g)
 	vs := views(res)
+	oracleStats["gen.requests"]++
+	if g.req != nil && !g.req.Forced && len(vs) > 0 {
+		oracleStats["gen.incremental-nonempty"]++
+	}
+	if strings.HasPrefix(info, "cached:") && !strings.HasPrefix(info, "cached:0/") {
+		oracleStats["gen.with-cache-hit"]++
+	}
+	if g.vid != nil {
+		user := sa.MakeUsername(g.vid.Namespace, g.vid.ServiceAccount)
+		if sp := s.specs[g.cluster]; sp != nil {
+			nowOK := !sp.sarErr && sp.allow.Contains(user) && (s.remote || g.cluster == s.cfg)
+			returned := map[string]bool{}
+			for _, v := range vs {
+				returned[v.name] = true
+				switch {
+				case v.hasKey && strings.HasPrefix(v.name, "kubernetes://"):
+					oracleStats["released.key.own-namespace"]++
+					if !nowOK {
+						oracleStats["released.key.on-cached-verdict-after-revocation"]++
+					}
+				case v.hasKey:
+					oracleStats["released.key.verified-reference"]++
+				case strings.HasPrefix(v.name, "configmap://"):
+					oracleStats["released.ca.configmap"]++
+				default:
+					oracleStats["released.ca.secret"]++
+				}
+				if strings.HasPrefix(v.kind, "P:") {
+					oracleStats["released.key.private-key-provider"]++
+				}
+			}
+			if !nowOK && !s.allowedWithin(g.cluster, user, 300) {
+				for _, n := range g.names {
+					if rest, ok := strings.CutPrefix(n, "kubernetes://"); ok && !returned[n] && !strings.HasSuffix(rest, "-cacert") &&
+						(!strings.Contains(rest, "/") || strings.HasPrefix(rest, g.vid.Namespace+"/")) {
+						oracleStats["denied.own-namespace-name-without-rbac"]++
+					}
+				}
+			}
+		}
+	} else {
+		oracleStats["gen.unverified-proxy"]++
+	}
 	for _, id := range s.order {
 		if pol := s.specs[id].policy; pol != nil && pol.wrong != "" {
 			return "authorisation-not-decided-by-list-secrets-in-own-namespace " + wire.Enc(pol.wrong)
@@ -672,7 +887,9 @@ func (s *sdsSUT) oracleGen(f []string) string {
 			return "payload-without-origin " + wire.Enc(v.name)
 		}
 		sp := s.specs[g.cluster]
-		authorised := sp != nil && !sp.sarErr && (s.remote || g.cluster == s.cfg) && sp.allow.Contains(sa.MakeUsername(g.vid.Namespace, g.vid.ServiceAccount))
+		// authorised now, or at some second within the last five minutes (a cached success may be served that long)
+		authorised := sp != nil && (s.remote || g.cluster == s.cfg) &&
+			s.allowedWithin(g.cluster, sa.MakeUsername(g.vid.Namespace, g.vid.ServiceAccount), 300)
 		switch {
 		case v.hasKey:
 			ko, ok2 := parseOrigin(v.key)
@@ -695,7 +912,17 @@ func (s *sdsSUT) oracleGen(f []string) string {
 				return "private-key-to-unentitled-proxy " + wire.Enc(v.name) + " origin=" + wire.Enc(v.key)
 			}
 		case o.kind == "S":
-			own := strings.HasPrefix(v.name, "kubernetes://") && o.ns == g.vid.Namespace
+			// CA material of a Secret: the secret the name denotes, or that name without the -cacert suffix
+			caDenoted := ""
+			if rest, ok := strings.CutPrefix(v.name, "kubernetes://"); ok {
+				if p := strings.Split(rest, "/"); len(p) > 1 {
+					caDenoted = p[1]
+				} else {
+					caDenoted = p[0]
+				}
+			}
+			own := strings.HasPrefix(v.name, "kubernetes://") && o.ns == g.vid.Namespace &&
+				(o.name == caDenoted || o.name == strings.TrimSuffix(caDenoted, "-cacert"))
 			granted := refs.Contains(v.name) && refDenotes(v.name, o, true)
 			if !own && !granted {
 				return "secret-ca-across-namespaces " + wire.Enc(v.name) + " origin=" + wire.Enc(v.cert)
